@@ -24,12 +24,15 @@ def lsb_digits(S, h):
     return [(S >> (2 * i)) & 3 for i in range(h)] + ([9] if S >> (2 * h) else [])
 
 
-def centre_ij(hil, til, ct, S, h, o):
+def centre_ij(hil, til, ct, S, h, o, want_vertices=False):
     a = hil.s_to_anchor(S, h, o)
     pent = til.get_pentagon_vertices(h, 0, a)
     cx, cy = pent.get_center()
     sc = float(2 ** h)
     ij = ct.face_to_ij((cx * sc, cy * sc))
+    if want_vertices:
+        vs = [ct.face_to_ij((x * sc, y * sc)) for (x, y) in pent.get_vertices()]
+        return a, (ij[0], ij[1]), vs
     return a, (ij[0], ij[1])
 
 
@@ -39,9 +42,10 @@ def cell_event(d_lsb, o, cache):
     h = len(d_lsb)
     S = S_of(d_lsb)
     e = {"ev": "cell", "o": o, "h": h, "d": list(d_lsb), "ok": False, "exc": "", "k": -1, "off": [0, 0], "fl": [0, 0],
-         "c": [[0, 0], [0, 0]], "back": [], "back2": [], "back3": [], "pc": []}
+         "c": [[0, 0], [0, 0]], "back": [], "back2": [], "back3": [], "pc": [], "pv": []}
     try:
-        a, ij = centre_ij(hil, til, ct, S, h, o)
+        a, ij, vs = centre_ij(hil, til, ct, S, h, o, True)
+        e["pv"] = [[floorform(x), floorform(y)] for (x, y) in vs] if len(vs) <= 8 and all(abs(x) < 2 ** 30 and abs(y) < 2 ** 30 for x, y in vs) else []
         e["k"] = int(a.k)
         e["off"] = [int(a.offset[0]), int(a.offset[1])]
         if a.offset[0] != e["off"][0] or a.offset[1] != e["off"][1]:
@@ -53,6 +57,7 @@ def cell_event(d_lsb, o, cache):
             e["exc"] = "lattice position outside the segment triangle by more than the triangle's size: %r" % (ij,)
             e["c"] = [[0, 0], [0, 0]]
             e["off"] = [0, 0]
+            e["pv"] = []
             return e
         e["back"] = lsb_digits(hil.ij_to_s(ij, h, o), h)
         # the same lattice point handed over as a list, twice (a conversion must not consume its argument)
